@@ -97,8 +97,22 @@ def run(rep):
         if rc4 != 0:
             broken.append({"obligation": "harness:gen_sql_grammar|explaindump", "detail": out4[-500:]})
         with open(tin, "w") as ft:
+            n_special = 0
             for line in out3.splitlines() + gram_lines:
                 p = line.split("\t")
+                if len(p) >= 2 and (p[-1] in ("PANIC", "PARSEPANIC") or p[-1].startswith("INV:")):
+                    # a valid statement on which Explain / Parse panics, or for which the parser built a SelectQuery outside
+                    # the condition under which count = emitted children is proved (C04_select: inv_limit)
+                    n_special += 1
+                    if n_special <= 5:
+                        found = True
+                        try:
+                            sql = bytes.fromhex(p[0]).decode("utf-8", "replace")
+                        except ValueError:
+                            sql = p[0]
+                        what = {"PANIC": "Explain panics on a valid statement", "PARSEPANIC": "Parse panics on a valid statement"}.get(p[-1], "the parser built a tree outside the proved condition: " + p[-1][4:])
+                        rep.violation("input", "%s: %s" % (what, sql[:150]), {"input_hex": p[0], "verdict": p[-1]}, input_hex=p[0])
+                    continue
                 if len(p) >= 2 and p[-1] not in ("ERR", "PANIC", "PARSEPANIC"):
                     ft.write(p[0] + "\t" + p[-1] + "\n")
                     n_txt += 1
